@@ -5,7 +5,7 @@ from checks import lib
 from checks import C03 as base
 
 PROPERTY = "C04"
-LEAN_MODULES = ["KafVerif.Props.C04"]
+LEAN_MODULES = ["KafVerif.Props.C04", "KafVerif.Props.C03"]
 OBLIGATIONS = [
     "KafVerif.C04.findIndexEntry_le",
     "KafVerif.C04.segment_progress",
@@ -13,12 +13,17 @@ OBLIGATIONS = [
     "KafVerif.C04.fetch_progress_reachable",
     "KafVerif.C04.below_watermark_has_batch",
     "KafVerif.C04.old_livelock",
+    "KafVerif.C04.fetch_progress_gapped",
+    "KafVerif.C04.fetch_progress_after_loss",
+    "KafVerif.C04.search_lookup_misses_hole",
+    "KafVerif.C03.handouts_stable",
+    "KafVerif.C03.shared_buffer_unstable",
 ]
 ASSUMPTIONS = base.ASSUMPTIONS + [
     "every committed segment has a non-empty index (BuildSegment always writes the first entry)",
 ]
 TECHNIQUE = base.TECHNIQUE
-LEVEL_TEXT = ("Lean 4 theorems, for every index interval, cache setting and every operation sequence whose accepted record sets declare their "
+LEVEL_TEXT = ("Lean 4 theorems (also for segment lists with holes after object loss + restore: fetch_progress_after_loss), for every index interval, cache setting and every operation sequence whose accepted record sets declare their "
               "length: for every offset with start <= o < nextOffset and every byte limit the modelled Read returns non-empty data that starts at "
               "the first byte of the batch holding o (cached, range-read, full-download, flush-window, buffer paths; fetch_progress_reachable). "
               "The pre-fix code is shown to livelock. Model tied to the current source by differential runs over generated layouts/offsets/limits.")
@@ -71,7 +76,10 @@ def layouts(ck, n):
 
 def run(ck):
     ck.partial = ("fetch_progress_reachable covers every reachable log whose accepted record sets declare their batch length; across a stored "
-                  "record set with a zero length field the frame walk cannot advance (known finding undeclared-batch-length-stops-frame-walk)")
+                  "record set with a zero length field the frame walk cannot advance (known finding undeclared-batch-length-stops-frame-walk); "
+                  "holes: fetch_progress_after_loss covers one loss+restart after any fault-free history and fetch_progress_gapped any log with the "
+                  "gapped invariant; preservation of that invariant by appends/flushes after the restart and by repeated loss rounds is covered by "
+                  "the holes stream (correspondence + monitor) only")
     bins = ck.build_all()
     if bins is None:
         return
